@@ -363,9 +363,22 @@ namespace igris
             size_t oldsize = m_size;
             if (n > oldsize)
             {
-                for (size_t i = oldsize; i < n; ++i)
+                size_t i = oldsize;
+                try
                 {
-                    igris::constructor(m_data + i);
+                    for (; i < n; ++i)
+                    {
+                        igris::constructor(m_data + i);
+                    }
+                }
+                catch (...)
+                {
+                    // like std::vector: no effect if a constructor throws
+                    while (i > oldsize)
+                    {
+                        igris::destructor(m_data + --i);
+                    }
+                    throw;
                 }
             }
             else
